@@ -29,7 +29,7 @@ func init() {
 	core.Register(&core.Check{
 		ID:    "C19",
 		Level: "model_checking",
-		Rule: "all histories of <=1 (thorough <=2) earlier programs followed by a program under test over an alphabet of 40 programs (incl. pairs that raise the same run-time error from different source positions) (define a variable, read it, shadow a built-in name, use a built-in, raise `_` on different lines, touch Either's abstract props, raise at depth 2, syntax error, intern new symbols via evalEnv, print, read stdin, iterate, user error, error inside native code, inspect built-in prototypes), " +
+		Rule: "all histories of <=1 (thorough <=2) earlier programs followed by a program under test over an alphabet of 46 programs (incl. pairs that raise the same run-time error from different source positions, and programs that invite!/import the embedded and Go standard modules after defining variables) (define a variable, read it, shadow a built-in name, use a built-in, raise `_` on different lines, touch Either's abstract props, raise at depth 2, syntax error, intern new symbols via evalEnv, print, read stdin, iterate, user error, error inside native code, inspect built-in prototypes), " +
 			"each history in a new process, under 2 reuse drivers (playground: one const env, one enclosed scope per program - the call sequence of web/wasm/executor.go; `pangaea test`: runscript.RunTest over a generated directory); " +
 			"oracle: (stdout, value, error message, stack trace) of the program under test equals its observation alone in a new process; states = histories, transitions = program evaluations; " +
 			"non-trivial = every history of length >=1; distinct = distinct (driver, history, program)",
@@ -92,6 +92,13 @@ var alphabet = []prog{
 	{Name: "err-assert-v1", Src: "assertEq(1, 2)", Fails: true},
 	{Name: "err-assert-v2", Src: "a := 1\nassert(a == 2)", Fails: true},
 	{Name: "err-caught-then-pass", Src: "[1.try./(0).err?, \"\".try.{undefinedCaught}.err?, 1.try.nope.err?]", Fails: false},
+	// standard modules (embedded sources / Go modules) loaded into the program's scope or as an object
+	{Name: "invite-native-module-after-definitions", Src: "secretInv := 42\nhelperInv := {|| secretInv}\ninvite!(\"dummy_native\")\n[message, helperInv()]"},
+	{Name: "import-native-module", Src: "mod := import(\"dummy_native\")\n[mod.keys, mod.message]"},
+	{Name: "invite-native-module-then-read-foreign-name", Src: "invite!(\"dummy_native\")\n[message, secretInv]", Fails: true},
+	{Name: "invite-go-module-after-definitions", Src: "secretGo := 43\ninvite!(\"dummy\")\n[message, secretGo]"},
+	{Name: "import-modules-keys", Src: "[import(\"dummy\").keys, import(\"http\").keys, import(\"dummy_native\").keys]"},
+	{Name: "import-wrong-module", Src: "import(\"dummy_native_wrong\")", Fails: true},
 	{Name: "bear-patch-builtins", Src: "c := Int.bear({extra: 1})\nd := {a: 1}.patch(b: 2)\n[c['extra], Int['extra], d, Obj['b]]"},
 }
 
